@@ -17,11 +17,20 @@ CLAIMS = {
         "Trusts the reference expander (xv/c15.py ref_expand), that alias words need no path/env expansion, and the small-scope hypothesis beyond 3 names.",
         "DESIGN.md §3 C15",
     ),
+    "C16": (
+        "model_checking",
+        "explicit-state BFS over cd/pushd/popd/dirs histories executed on the real aliases, invariants + reference for +N/-N",
+        "seqx",
+        "Breadth-first search over all histories (depth 4 quick / 6 thorough, 54-event alphabet incl. env toggles and a vanishing directory) of the real cd/pushd/popd/dirs aliases on a real symlinked tree in a capability-dropped process; every transition is checked against the clauses of the statement (samefile($PWD,cwd), $OLDPWD, failed op changes nothing and reports, size bound, pushd;popd identity, documented +N/-N selection and rotation). States are deduplicated on a canonical projection, so the claim is 'all reachable states up to the completed depth'.",
+        "Trusts the reference selection rules written from the command docstrings; relative `pushd -n` arguments, Windows UNC branches and power-loss are out of scope; if capset is refused the unsearchable-directory symbols lose their meaning (recorded in evidence).",
+        "DESIGN.md §3 C16",
+    ),
 }
 
 NOT_YET = "check not built yet (work in progress in this round; see DESIGN.md §3 for the planned exploration)"
 
 ENGINES = [
+    {"name": "seqx", "path": "xv/seqx.py", "serves_properties": ["C16"], "kind_free_text": "explicit-state breadth-first search whose transitions call the real entry points on a freshly replayed implementation; canonical state hashing; lock-step reference"},
     {"name": "gramx", "path": "xv/", "serves_properties": ["C15"], "kind_free_text": "bounded-exhaustive enumeration of structured inputs run through the real implementation, compared with a reference"},
 ]
 
